@@ -131,7 +131,7 @@ class SimWorld(object):
     BLOCK_BOUND = 0.25      # virtual seconds slept inside one loop iteration
 
     def __init__(self, watchers=(), arbiter_opts=None, tape=(), start=1000.0,
-                 config_file=None, default_beh=None):
+                 config_file=None, default_beh=None, mode='daemon'):
         import circus.process
         import circus.watcher
         import circus.arbiter
@@ -164,6 +164,10 @@ class SimWorld(object):
         self.checks_skipped = 0
         self.check_errors = []
         self.in_probe = False
+        self.mode = mode
+        self.exited = False
+        self.exit_restarting = None
+        self.exit_error = None
 
         asyncio.set_event_loop(self.loop)
         self.loop.set_exception_handler(self._loop_exc)
@@ -284,6 +288,7 @@ class SimWorld(object):
     def _step(self):
         self.cb_slept = 0.0
         self.loop.step()
+        self._after_step()
 
     def run_idle(self):
         if self.dead:
@@ -373,22 +378,60 @@ class SimWorld(object):
             if nt - start > budget:
                 return False
             self.loop.set_time(nt)
-        return False
+        return self.exited
 
     def quiescent(self):
+        if self.exited:
+            return True
         return (not self.dead and self.loop.is_idle() and
                 self.loop._next_timer() is None)
 
     # -- daemon life cycle ---------------------------------------------------
     def start(self, drain=True):
-        def go():
-            f = self.arbiter.start()
-            return f
-        self.start_future = self.in_loop(go)
-        if self.start_future is not None:
+        """Start the daemon.
+
+        mode 'daemon' (default) reproduces what circusd does: the Arbiter is
+        built *without* a provided loop, so start() registers
+        start_watchers() on the loop and then blocks in start_io_loop()
+        until somebody calls loop.stop(); its finally clause then runs
+        stop_controller_and_close_sockets().  The harness owns the loop, so
+        the blocking call is replaced by a no-op and the finally clause is
+        postponed until the iteration in which loop.stop() was requested has
+        completed (see _after_step).  mode 'embedded' is the provided-loop
+        API used by the test-suite."""
+        arb = self.arbiter
+        if self.mode == 'daemon':
+            arb._provided_loop = False
+            arb.start_io_loop = lambda: None
+            arb.stop_controller_and_close_sockets = lambda: None
+
+            def go():
+                return arb.start()
+            try:
+                self.start_future = self.in_loop(go)
+            finally:
+                del arb.start_io_loop
+                del arb.stop_controller_and_close_sockets
+        else:
+            self.start_future = self.in_loop(lambda: arb.start())
+        if self.start_future is not None and \
+                hasattr(self.start_future, 'add_done_callback'):
             self.start_future.add_done_callback(self._swallow)
         if drain:
             self.drain()
+
+    def _after_step(self):
+        if self.mode == 'daemon' and self.loop._stopping and \
+                not self.exited:
+            # loop.start() would return now; Arbiter.start()'s finally:
+            self.loop._stopping = False
+            self.exited = True
+            self.exit_restarting = bool(self.arbiter._restarting)
+            try:
+                self.arbiter.stop_controller_and_close_sockets()
+            except Exception as e:
+                self.exit_error = repr(e)
+            self.dead = True
 
     @staticmethod
     def _swallow(f):
